@@ -62,7 +62,7 @@ func init() {
 				for _, arch := range append(append([]string{}, c02Arches...), "OVERRIDE") {
 					for _, v := range []string{"1.2.3", "v1.2.3", "1.2.3+git-abc123"} {
 						for _, epoch := range []string{"", "2"} {
-							for _, pre := range []string{"", "beta1", "rc-2"} {
+							for _, pre := range []string{"", "beta1", "rc-2", "rc.1"} {
 								for _, meta := range []string{"", "git", "2024-01-05"} {
 									for _, rel := range []string{"", "3"} {
 										for _, schema := range []string{"", "none"} {
@@ -236,6 +236,19 @@ func init() {
 						c := baseMeta()
 						c.Release = "2"
 						if !yield(C15Case{Part: "cli", Format: f, Cfg: c, Target: tg, WithP: true, Preexist: pe}) {
+							return
+						}
+					}
+				}
+			}
+			// conventional names that hold every character a version can put there (~ + : _ .), under a directory
+			// target and no target
+			for _, f := range Formats {
+				for _, tg := range []string{"dir", "empty"} {
+					for _, vc := range []struct{ v, ep, pre, meta, rel string }{{"v1.2.3", "2", "rc-2", "git", "3"}, {"1.2.3", "", "rc.1", "build.5", ""}, {"1.2.3+git-abc123", "", "beta1", "", "3"}} {
+						c := baseMeta()
+						c.Version, c.Epoch, c.Prerelease, c.Metadata, c.Release = vc.v, vc.ep, vc.pre, vc.meta, vc.rel
+						if !yield(C15Case{Part: "cli", Format: f, Cfg: c, Target: tg, WithP: true}) {
 							return
 						}
 					}
